@@ -4,6 +4,397 @@ Helper lemmas for C06 (genotype level).
 import SfsModel.Model.Stat
 import SfsModel.Spec.Stat
 import SfsModel.Lemmas.Create
+import SfsModel.Lemmas.View
+import Mathlib.Algebra.Field.Basic
+import Mathlib.Algebra.CharZero.Defs
+import Mathlib.Algebra.BigOperators.Group.List.Basic
+import Mathlib.Algebra.BigOperators.Ring.List
+import Mathlib.Tactic.Ring
+import Mathlib.Tactic.FieldSimp
 namespace Sfs
+open Sfs.Spec
 
+/-- Same content as `C06.IsSpectrumOf` (which is definitionally this). -/
+def SgSpec {α : Type} [Field α] (shape : List Nat) (ks : List (List Nat)) (x : List α) : Prop :=
+  x.length = size shape ∧ (∀ k ∈ ks, InB shape k) ∧ ∀ k, InB shape k → x.getD (flat shape k) 0 = ((ks.count k : Nat) : α)
+
+section
+variable {α : Type} [Field α]
+
+/-! ### sums over `List.range` -/
+
+theorem sg_sum_range_ite (n j : Nat) (c : α) (hj : j < n) :
+    ((List.range n).map (fun i => if i = j then c else 0)).sum = c := by
+  induction n with
+  | zero => omega
+  | succ n ih =>
+    rw [List.range_succ, List.map_append, List.sum_append]
+    by_cases h : j = n
+    · subst h
+      have : ((List.range j).map (fun i => if i = j then c else 0)) = (List.range j).map (fun _ => (0 : α)) := by
+        apply List.map_congr_left
+        intro i hi
+        have := List.mem_range.mp hi
+        rw [if_neg (by omega)]
+      rw [this]
+      simp
+    · rw [ih (by omega)]
+      simp [Ne.symm h]
+
+theorem sg_sum_map_add {β} (l : List β) (f g : β → α) :
+    (l.map (fun b => f b + g b)).sum = (l.map f).sum + (l.map g).sum := by
+  induction l with
+  | nil => simp
+  | cons b l ih => simp only [List.map_cons, List.sum_cons, ih]; ring
+
+theorem sg_sum_map_zero {β} (l : List β) : (l.map (fun _ => (0 : α))).sum = 0 := by
+  induction l with
+  | nil => simp
+  | cons b l ih => simp
+
+/-- Counting form of the key lemma. -/
+theorem sg_linear_count (shape : List Nat) (ks : List (List Nat)) (hin : ∀ k ∈ ks, InB shape k) (w : List Nat → α) :
+    ((List.range (size shape)).map (fun i => ((ks.count (unflat shape i) : Nat) : α) * w (unflat shape i))).sum
+      = (ks.map w).sum := by
+  induction ks with
+  | nil => simp
+  | cons k ks ih =>
+    have hk : InB shape k := hin k (List.mem_cons_self)
+    have ih' := ih (fun k' hk' => hin k' (List.mem_cons_of_mem _ hk'))
+    rw [List.map_cons, List.sum_cons, ← ih', ← sg_sum_range_ite (size shape) (flat shape k) (w k) (flat_lt _ _ hk),
+      ← sg_sum_map_add]
+    congr 1
+    apply List.map_congr_left
+    intro i hi
+    have hi' := List.mem_range.mp hi
+    rw [List.count_cons]
+    by_cases h : i = flat shape k
+    · subst h
+      rw [unflat_flat _ _ hk]
+      simp
+      ring
+    · have : ¬ (k = unflat shape i) := by
+        intro e
+        apply h
+        rw [e, flat_unflat _ _ hi']
+      simp [h, this]
+
+/-- The key lemma: a weighted sum over the cells is the sum of the weight over the sites. -/
+theorem sg_linear (shape : List Nat) (ks : List (List Nat)) (x : List α) (h : SgSpec shape ks x) (w : List Nat → α) :
+    ((List.range (size shape)).map (fun i => x.getD i 0 * w (unflat shape i))).sum = (ks.map w).sum := by
+  rw [← sg_linear_count shape ks h.2.1 w]
+  congr 1
+  apply List.map_congr_left
+  intro i hi
+  have hi' := List.mem_range.mp hi
+  have := h.2.2 (unflat shape i) (unflat_inB _ _ hi')
+  rw [flat_unflat _ _ hi'] at this
+  rw [this]
+
+theorem sg_linear_iff (shape : List Nat) (ks : List (List Nat)) (x : List α) (h : SgSpec shape ks x) (w : List Nat → α) :
+    ((List.range (size shape)).map (fun i => x.getD i 0 * w (indexFromFlat shape i))).sum = (ks.map w).sum := by
+  rw [← sg_linear shape ks x h w]
+  congr 1
+  apply List.map_congr_left
+  intro i hi
+  rw [show indexFromFlat shape i = unflat shape i from unflatLoop_eq shape i (List.mem_range.mp hi)]
+
+theorem sg_sum_eq_range (x : List α) : x.sum = ((List.range x.length).map (fun i => x.getD i 0)).sum := by
+  conv_lhs => rw [list_eq_range_map (0:α) x]
+
+theorem sg_sum (shape : List Nat) (ks : List (List Nat)) (x : List α) (h : SgSpec shape ks x) :
+    sumList x = ((ks.length : Nat) : α) := by
+  rw [sumList_eq_sum, sg_sum_eq_range, h.1]
+  have := sg_linear shape ks x h (fun _ => 1)
+  simp only [mul_one] at this
+  rw [this]
+  simp
+
+theorem sg_sum_filter {β} (p : β → Bool) (f : β → α) (l : List β) :
+    ((l.filter p).map f).sum = (l.map (fun b => if p b then f b else 0)).sum := by
+  induction l with
+  | nil => simp
+  | cons b l ih =>
+    rw [List.filter_cons]
+    by_cases h : p b = true
+    · simp [h, ih]
+    · simp [h, ih]
+
+/-! ### `interior` and `withIdx` -/
+
+theorem sg_withIdx {β} (d : β) (x : List β) : withIdx x = (List.range x.length).map (fun i => (i, x.getD i d)) := by
+  unfold withIdx
+  apply List.ext_getElem
+  · simp
+  · intro i h1 h2
+    simp at h1
+    simp [List.getD_eq_getElem?_getD, h1]
+
+theorem sg_interior_map {β γ} (f : β → γ) (l : List β) : interior (l.map f) = (interior l).map f := by
+  unfold interior
+  simp [List.map_take]
+
+theorem sg_interior_range (n : Nat) : interior (List.range n) = List.range' 1 (n - 2) := by
+  unfold interior
+  rw [List.length_range, List.take_range, List.range_eq_range']
+  simp
+  omega
+
+theorem sg_sum_interior (n : Nat) (g : Nat → α) :
+    ((List.range' 1 (n - 2)).map g).sum
+      = ((List.range n).map (fun i => if i = 0 ∨ i = n - 1 then 0 else g i)).sum := by
+  match n with
+  | 0 => simp
+  | 1 => simp
+  | m + 2 =>
+    rw [List.range_succ, List.range_eq_range', List.range'_succ]
+    simp only [List.map_append, List.map_cons, List.sum_append, List.sum_cons, List.map_nil, List.sum_nil]
+    simp
+    apply congrArg
+    apply List.map_congr_left
+    intro i hi
+    have := List.mem_range'_1.mp hi
+    rw [if_neg (by omega)]
+
+theorem sg_interior_withIdx_sum (x : List α) (f : Nat × α → α) :
+    sumList ((interior (withIdx x)).map f)
+      = ((List.range x.length).map (fun i => if i = 0 ∨ i = x.length - 1 then 0 else f (i, x.getD i 0))).sum := by
+  rw [sumList_eq_sum, sg_withIdx 0 x, sg_interior_map, sg_interior_range, List.map_map, sg_sum_interior]
+  rfl
+
+theorem sg_interior_sum (x : List α) :
+    sumList (interior x)
+      = ((List.range x.length).map (fun i => if i = 0 ∨ i = x.length - 1 then 0 else x.getD i 0)).sum := by
+  rw [sumList_eq_sum]
+  conv_lhs => rw [list_eq_range_map (0:α) x, sg_interior_map, sg_interior_range]
+  rw [sg_sum_interior]
+
+/-! ### the two monomorphic cells -/
+
+theorem sg_size_pos (ns : List Nat) : 0 < size (ns.map (· + 1)) := by
+  induction ns with
+  | nil => simp [size]
+  | cons n ns ih => simp only [List.map_cons, size]; exact Nat.mul_pos (by omega) ih
+
+theorem sg_zeros (ns : List Nat) :
+    InB (ns.map (· + 1)) (ns.map (fun _ => 0)) ∧ flat (ns.map (· + 1)) (ns.map (fun _ => 0)) = 0 := by
+  induction ns with
+  | nil => simp [InB, flat]
+  | cons n ns ih =>
+    simp only [List.map_cons, InB, flat, ih.2]
+    exact ⟨⟨Nat.succ_pos n, ih.1⟩, by simp⟩
+
+theorem sg_top (ns : List Nat) :
+    InB (ns.map (· + 1)) ns ∧ flat (ns.map (· + 1)) ns = size (ns.map (· + 1)) - 1 := by
+  induction ns with
+  | nil => simp [InB, flat, size]
+  | cons n ns ih =>
+    refine ⟨⟨Nat.lt_succ_self n, ih.1⟩, ?_⟩
+    have hp := sg_size_pos ns
+    simp only [List.map_cons, flat, size, ih.2, Nat.add_mul, Nat.one_mul]
+    omega
+
+theorem sg_polymorphic (ns : List Nat) (i : Nat) (hi : i < size (ns.map (· + 1))) :
+    polymorphic ns (unflat (ns.map (· + 1)) i) = !(decide (i = 0 ∨ i = size (ns.map (· + 1)) - 1)) := by
+  have hz := sg_zeros ns
+  have ht := sg_top ns
+  have e1 : unflat (ns.map (· + 1)) i = ns.map (fun _ => 0) ↔ i = 0 := by
+    constructor
+    · intro e
+      have := flat_unflat _ _ hi
+      rw [e, hz.2] at this
+      exact this.symm
+    · intro e
+      subst e
+      have := unflat_flat _ _ hz.1
+      rwa [hz.2] at this
+  have e2 : unflat (ns.map (· + 1)) i = ns ↔ i = size (ns.map (· + 1)) - 1 := by
+    constructor
+    · intro e
+      have := flat_unflat _ _ hi
+      rw [e, ht.2] at this
+      exact this.symm
+    · intro e
+      subst e
+      have := unflat_flat _ _ ht.1
+      rwa [ht.2] at this
+  unfold polymorphic
+  by_cases h1 : i = 0
+  · rw [e1.mpr h1]
+    simp [h1]
+  · by_cases h2 : i = size (ns.map (· + 1)) - 1
+    · rw [e2.mpr h2]
+      simp [← h2]
+    · have b1 : (unflat (ns.map (· + 1)) i != ns.map (fun _ => 0)) = true := bne_iff_ne.mpr (mt e1.mp h1)
+      have b2 : (unflat (ns.map (· + 1)) i != ns) = true := bne_iff_ne.mpr (mt e2.mp h2)
+      rw [b1, b2]
+      simp [h1, h2]
+
+/-- Weighted sum over the interior cells = sum of the weight over the polymorphic sites. -/
+theorem sg_interior_linear (ns : List Nat) (ks : List (List Nat)) (x : List α) (h : SgSpec (ns.map (· + 1)) ks x)
+    (w : List Nat → α) :
+    ((List.range x.length).map (fun i => if i = 0 ∨ i = x.length - 1 then 0
+        else x.getD i 0 * w (unflat (ns.map (· + 1)) i))).sum
+      = ((ks.filter (polymorphic ns)).map w).sum := by
+  rw [sg_sum_filter, ← sg_linear _ ks x h, h.1]
+  congr 1
+  apply List.map_congr_left
+  intro i hi
+  rw [sg_polymorphic ns i (List.mem_range.mp hi)]
+  by_cases hc : i = 0 ∨ i = size (ns.map (· + 1)) - 1
+  · simp [hc]
+  · simp [hc]
+
+theorem sg_S (ns : List Nat) (ks : List (List Nat)) (x : List α) (h : SgSpec (ns.map (· + 1)) ks x) :
+    segregating x = gS ns ks := by
+  unfold segregating gS
+  rw [sg_interior_sum]
+  have := sg_interior_linear ns ks x h (fun _ => 1)
+  simp only [mul_one] at this
+  rw [this]
+  simp
+
+theorem sg_binom2 (n : Nat) : binom2 n = n * (n - 1) / 2 := by
+  unfold binom2
+  split
+  · have : n = 0 ∨ n = 1 := by omega
+    rcases this with rfl | rfl <;> rfl
+  · rfl
+
+theorem sg_sum_map_div {β} (l : List β) (f : β → α) (c : α) : (l.map (fun b => f b / c)).sum = (l.map f).sum / c := by
+  simp only [div_eq_mul_inv]
+  rw [List.sum_map_mul_right]
+
+theorem sg_pi (n : Nat) (ks : List (List Nat)) (x : List α) (h : SgSpec [n + 1] ks x) :
+    statPi x = gPi n (ks.map (fun k => k.getD 0 0)) := by
+  have hl : x.length = n + 1 := by rw [h.1]; simp [size]
+  have hlin := sg_linear [n+1] ks x h (fun k => ((k.getD 0 0 * (n - k.getD 0 0) : Nat) : α) / ((binom2 n : Nat) : α))
+  have hs : size [n+1] = n+1 := by simp [size]
+  rw [hs, sg_sum_map_div] at hlin
+  unfold statPi thetaEstimate gPi sumOver
+  simp only []
+  rw [sg_interior_withIdx_sum, sumList_eq_sum, List.map_map, ← sg_binom2, hl]
+  simp only [Function.comp_def]
+  rw [← hlin]
+  congr 1
+  apply List.map_congr_left
+  intro i hi
+  have hi' := List.mem_range.mp hi
+  simp only [unflat, size, Nat.div_one, List.getD_cons_zero, Nat.add_sub_cancel]
+  by_cases h0 : i = 0
+  · simp [h0]
+  · by_cases h1 : i = n
+    · simp [h1]
+    · rw [if_neg (by omega)]
+      unfold tajimaWeight
+      ring
+
+theorem sg_cells (a b : Nat) (hb : 0 < b) :
+    (List.range a).flatMap (fun m1 => (List.range b).map (fun m2 => (m1, m2)))
+      = (List.range (a * b)).map (fun i => (i / b, i % b)) := by
+  induction a with
+  | zero => simp
+  | succ a ih =>
+    rw [List.range_succ, List.flatMap_append, ih, Nat.succ_mul, List.range_add, List.map_append]
+    congr 1
+    simp only [List.flatMap_cons, List.flatMap_nil, List.append_nil, List.map_map]
+    apply List.map_congr_left
+    intro m hm
+    have hm' := List.mem_range.mp hm
+    simp only [Function.comp_def]
+    rw [Nat.mul_comm a b, Nat.mul_add_div hb, Nat.mul_add_mod, Nat.div_eq_of_lt hm', Nat.mod_eq_of_lt hm']
+    simp
+
+theorem sg_sum_filter_all {β} (p : β → Bool) (f : β → α) (l : List β) (hz : ∀ b ∈ l, p b = false → f b = 0) :
+    ((l.filter p).map f).sum = (l.map f).sum := by
+  rw [sg_sum_filter]
+  congr 1
+  apply List.map_congr_left
+  intro b hb
+  by_cases h : p b = true
+  · simp [h]
+  · simp [h, hz b hb (by simpa using h)]
+
+theorem sg_not_poly2 (n1 n2 : Nat) (k : List Nat) (h : polymorphic [n1, n2] k = false) : k = [0, 0] ∨ k = [n1, n2] := by
+  unfold polymorphic at h
+  simp only [List.map_cons, List.map_nil, Bool.and_eq_false_iff, bne_eq_false_iff_eq] at h
+  exact h
+
+theorem sg_pixy (n1 n2 : Nat) (ks : List (List Nat)) (x : List α) (h : SgSpec [n1 + 1, n2 + 1] ks x) :
+    statPiXY ⟨x, [n1 + 1, n2 + 1]⟩ = gPiXY n1 n2 ks := by
+  have hl : x.length = (n1 + 1) * (n2 + 1) := by rw [h.1]; simp [size]
+  let w : List Nat → α := fun k => ((k.getD 0 0 * (n2 - k.getD 1 0) + k.getD 1 0 * (n1 - k.getD 0 0) : Nat) : α)
+  have hlin := sg_interior_linear [n1, n2] ks x h w
+  rw [sg_sum_filter_all] at hlin
+  · unfold statPiXY gPiXY sumOver
+    simp only [List.getD_cons_zero, List.getD_cons_succ, Nat.add_sub_cancel]
+    rw [sg_cells _ _ (Nat.succ_pos n2)]
+    congr 1
+    rw [sumList_eq_sum, sumList_eq_sum, ← hlin, hl]
+    have : ∀ l : List (Nat × Nat), l.length = (n1 + 1) * (n2 + 1) →
+        (l.take ((n1 + 1) * (n2 + 1) - 1)).drop 1 = interior l := by
+      intro l hl; unfold interior; rw [hl]
+    rw [this _ (by simp), sg_interior_map, sg_interior_range, List.map_map, sg_sum_interior]
+    congr 1
+    apply List.map_congr_left
+    intro i hi
+    simp only [Function.comp_def, nth, Nat.div_add_mod', unflat, size, Nat.mul_one, Nat.div_one,
+      List.map_cons, List.map_nil, w, List.getD_cons_zero, List.getD_cons_succ]
+  · intro k _ hk
+    rcases sg_not_poly2 n1 n2 k hk with rfl | rfl <;> simp [w]
+
+/-- per-population sample frequencies of a site, as `freqs` computes them from the cell index -/
+def sgFreq (ns k : List Nat) : List α :=
+  (List.zip k (ns.map (· + 1))).map (fun p => ((p.1 : Nat) : α) / ((p.2 - 1 : Nat) : α))
+
+theorem sg_freqs (ns : List Nat) (i : Nat) (hi : i < size (ns.map (· + 1))) :
+    freqs (α := α) (ns.map (· + 1)) i = sgFreq ns (unflat (ns.map (· + 1)) i) := by
+  unfold freqs sgFreq
+  rw [show indexFromFlat (ns.map (· + 1)) i = unflat (ns.map (· + 1)) i from unflatLoop_eq _ i hi]
+
+theorem sg_nth_freq : ∀ (ns k : List Nat) (j : Nat), nth (sgFreq (α := α) ns k) j = pfreq ns k j
+  | _, [], j => by simp [nth, sgFreq, pfreq]
+  | [], _ :: _, j => by simp [nth, sgFreq, pfreq]
+  | n :: ns, k :: ks, 0 => by simp [nth, sgFreq, pfreq]
+  | n :: ns, k :: ks, j + 1 => by
+    have ih : nth (sgFreq (α := α) ns ks) j = pfreq ns ks j := sg_nth_freq ns ks j
+    simp only [nth, sgFreq, pfreq] at ih ⊢
+    simpa using ih
+
+theorem sg_freqSum (ns : List Nat) (ks : List (List Nat)) (x : List α) (h : SgSpec (ns.map (· + 1)) ks x)
+    (W : List α → α) :
+    freqSum W (normalized ⟨x, ns.map (· + 1)⟩)
+      = (ks.map (fun k => W (sgFreq ns k))).sum / ((ks.length : Nat) : α) := by
+  have hlin := sg_linear _ ks x h (fun k => W (sgFreq ns k))
+  have hs := sg_sum _ ks x h
+  rw [sumList_eq_sum] at hs
+  unfold freqSum normalized
+  simp only []
+  rw [sg_withIdx 0, List.map_map, sumList_eq_sum, normalize_length, h.1, ← hlin, ← sg_sum_map_div]
+  apply congrArg
+  apply List.map_congr_left
+  intro i hi
+  simp only [Function.comp_def]
+  rw [normalize_getD, sg_freqs ns i (List.mem_range.mp hi), hs, div_mul_eq_mul_div]
+
+theorem sg_f2 (ns : List Nat) (ks : List (List Nat)) (x : List α) (h : SgSpec (ns.map (· + 1)) ks x) :
+    statF2 (normalized ⟨x, ns.map (· + 1)⟩) = gF2 ns ks := by
+  unfold statF2 gF2 sumOver gSum
+  rw [sg_freqSum ns ks x h, sumList_eq_sum]
+  simp only [sg_nth_freq]
+
+theorem sg_f3 (ns : List Nat) (ks : List (List Nat)) (x : List α) (h : SgSpec (ns.map (· + 1)) ks x) :
+    statF3 (normalized ⟨x, ns.map (· + 1)⟩) = gF3 ns ks := by
+  unfold statF3 gF3 sumOver gSum
+  rw [sg_freqSum ns ks x h, sumList_eq_sum]
+  simp only [sg_nth_freq]
+
+theorem sg_f4 (ns : List Nat) (ks : List (List Nat)) (x : List α) (h : SgSpec (ns.map (· + 1)) ks x) :
+    statF4 (normalized ⟨x, ns.map (· + 1)⟩) = gF4 ns ks := by
+  unfold statF4 gF4 sumOver gSum
+  rw [sg_freqSum ns ks x h, sumList_eq_sum]
+  simp only [sg_nth_freq]
+
+
+end
 end Sfs
